@@ -22,6 +22,10 @@ OpsBad == LET o == Obs[i]
              \cup (IF o.total # Counts(shape, filt).total THEN {"total-count"} ELSE {})
 (* k = "hdoc": [s, hist << step >>, step, doc] - a document drawn at step `step` of a history replayed on ONE schema object *)
 HDocBad == HistDocViol(shape, Obs[i].hist, Obs[i].step, Obs[i].doc)
-Report == LET bad == IF Obs[i].k = "doc" THEN DocBad ELSE IF Obs[i].k = "hdoc" THEN HDocBad ELSE OpsBad
+(* k = "wire": [s, cfg, root, field, w] - the request the API under test received for a case; k = "maps": [s, roots, fields] *)
+WireBad == WireViol(shape, Obs[i].cfg, [root |-> Obs[i].root, field |-> Obs[i].field], Obs[i].w)
+MapsBad == MapsViol(shape, Obs[i].roots, Obs[i].fields)
+Report == LET bad == CASE Obs[i].k = "doc" -> DocBad [] Obs[i].k = "hdoc" -> HDocBad [] Obs[i].k = "wire" -> WireBad
+                       [] Obs[i].k = "maps" -> MapsBad [] OTHER -> OpsBad
           IN IF bad = {} THEN TRUE ELSE PrintT(<<"BAD", i, bad>>)
 =============================================================================
